@@ -837,7 +837,7 @@ def small_pool():
 
 
 SMALL_CTX = dict(DEFAULT_CTX, x=5, j=1, n=3)
-SUBPOOL = [0, 1, 3, 5, 7, 8, 12, 14, 16, 19]     # the ops used for the longest exhaustive sequences
+SUBPOOL = [1, 2, 3, 5, 7, 8, 12, 14, 16, 18]     # the ops used for the longest exhaustive sequences
 
 
 def bounded(payload):
